@@ -1228,8 +1228,9 @@ def r_decode_error_index(ctx, repo):
                         # every value stored in self.raw_decode must be a stateless codec function (codecs.<name>_decode) or None
                         for g in live_methods(repo, R):
                             for a in walk_function(g.node):
-                                if isinstance(a, ast.Assign) and any(is_self_attr(tg, g, 'raw_decode') for tg in a.targets):
-                                    v = a.value
+                                if not (isinstance(a, ast.Assign) and any(is_self_attr(tg, g, 'raw_decode') for tg in a.targets)):
+                                    continue
+                                for v in A.local_values(g.node, a.value, g.params):
                                     if isinstance(v, ast.Constant) and v.value is None:
                                         continue
                                     r = repo.resolve_expr(g.module, v, cls=None) if isinstance(v, (ast.Attribute, ast.Name)) else None
